@@ -24,7 +24,7 @@ TRUSTED_BASE = [
     "no Axiom/Parameter/Admitted in the development (grep + Print Assumptions on every run)",
     "extraction: ExtrOcamlBasic only (bool/option/list/prod/unit/sumbool mapped to OCaml's), OCaml 4.13.1, extract/*.ml drivers",
     "correspondence: Rust harness built from /repo with --cfg brood_verif (hooks H1 verif_dump, H2 rayon shim), canonicalisation in lib/*.py",
-    "tools/translate.py for the regenerated decision tables (coq/Gen/*.v)",
+    "tools/translate.py (decision tables), tools/translate_facts.py (structural facts), tools/translate_bytes.py (identifier-byte arithmetic): coq/Gen/*.v regenerated from /repo/src on every run",
     "modelled by contract, not verified: Vec/VecDeque, hashbrown tables (arbitrary iteration order), rayon join/bridge, serde & serde_assert/serde_json, TypeId injectivity, rustc",
 ]
 
@@ -141,7 +141,7 @@ def build_extract():
         if p.returncode != 0:
             raise Infra("model does not compile:\n" + p.stdout[-3000:])
         os.makedirs(EXTRACT, exist_ok=True)
-        key = tree_hash([os.path.join(COQ, "Model"), os.path.join(VERIF, "extract")], {".v", ".ml"})
+        key = tree_hash([os.path.join(COQ, "Model"), os.path.join(COQ, "Gen"), os.path.join(VERIF, "extract")], {".v", ".ml"})
         stamp = os.path.join(EXTRACT, "stamp")
         if os.path.exists(stamp) and open(stamp).read() == key and os.path.exists(os.path.join(EXTRACT, "wh_model")):
             return
